@@ -251,12 +251,22 @@ def run(chk, tier, scale=1.0):
             chk.violation(Violation("C09", rule, sig, text, wit))
         if k < 1 and r.get("sample"):
             chk.sample({"input_and_output_head": r["sample"]})
+    # second part: lock-step histories (output attributed to input lines through the guarded sync command) in which an id that is
+    # re-used - also while its previous holder is still pending - comes back with ANOTHER address and port: every client line must
+    # carry the address / port of the id's current announcement, not of an earlier one
+    from checks import pcommon
+    hj = pcommon.hist_jobs(b, int((240 if tier == "quick" else 6000) * scale), chk.seed, PROPS, tag="c09h", vary_addr=0.85,
+                           opts={"weights": {"reannounce": 8, "disconnect": 5, "registered": 3, "reply": 22, "timeout": 4}})
+    hres = vcommon.pmap(prun.hist_worker, hj, chunksize=4)
+    prun.fold(chk, "C09", hres)
+    chk.count("lockstep_histories", len(hres))
     chk.rule = ("batch histories (12-30 clients, ids up to 2^31-1) on the UNHOOKED channel: announced addresses cover the 256 zero/non-zero group patterns with 1-4 digit groups in "
                 "compressed / uncompressed / upper-case / exploded spellings, IPv4, mapped and compatible forms, ports 0/1/65535/random; replies to predicted tags so that "
                 "soft-done, challenges, +x and all three verdicts occur; events that make the daemon log (bad info requests, junk, reload of a broken / unparsable-typed / missing "
                 "file via real SIGUSR1) under 5 logs sections (none, catch-all, per-facility, verbose_timestamp on/off); every stdout line from the banner on must match one "
                 "production of the message grammar; client lines must carry an announced id, an address Python's ipaddress reads as the announced value, and the announced port; "
-                "distinct = input stream; non-trivial = at least one client-directed line")
+                "distinct = input stream; non-trivial = at least one client-directed line; plus lock-step random histories over 3-5 heavily re-used ids whose "
+                "re-announcements (also of a still pending id) carry a different address / port: every client line must carry those of the current announcement")
     chk.require("client_lines", 5000 * min(1.0, scale))
     chk.require("verdict_lines", 1000 * min(1.0, scale))
     chk.require("reloads", 50 * min(1.0, scale))
@@ -266,6 +276,8 @@ def run(chk, tier, scale=1.0):
 
 
 def replay(chk, rep):
+    if "events" in rep["witness"]:
+        return prun.replay_witness(chk, rep, PROPS)
     b = prun.build_daemon("c09-replay")
     w = rep["witness"]
     out, r = daemon.run_batch(b, w["config"], ("\n".join(w["input"]) + "\n").encode("latin-1"), leaks=False)
